@@ -87,6 +87,20 @@ def gen(streams, tier, i):
             rec = hr.choice([x for x in m.recs if x.rt in ("L", "C") and x.tag("ID")])
             ops.append({"op": "del_tag", "text": rec.render(), "tag": "ID"})
             m.del_tag(rec, "ID")
+        elif r < 0.69 and version == "gfa2" and any(x.rt in ("O", "U") and m.name_of(x) for x in m.recs):
+            # a further line of a multi-line group: same tag with an equal, a contradicting, a falsy value
+            rec = hr.choice([x for x in m.recs if x.rt in ("O", "U") and m.name_of(x)])
+            old = [t for t in rec.tags if t[1] in ("i", "Z", "J")]
+            item = (sorted(x for x in ns if ns[x][0].rt == "S") or ["q"])[0] + ("+" if rec.rt == "O" else "")
+            if old and hr.random() < 0.7:
+                n_, t_, v_ = hr.choice(old)
+                newv = hr.choice([v_, {"i": "0", "Z": "0", "J": "{}"}[t_], {"i": "7", "Z": "zz", "J": "[1]"}[t_]])
+                tag = "%s:%s:%s" % (n_, t_, newv)
+            else:
+                tag = hr.choice(["gq:i:0", "gr:i:5", "gs:J:{}"])
+            ln = "\t".join([rec.rt, m.name_of(rec), item, tag])
+            ops.append({"op": "add", "line": ln, "as": hr.choice(["str", "obj"])})
+            m.add_text(ln)
         elif r < 0.70:
             ops.append({"op": "unused_name"})
         elif r < 0.78 and version == "gfa1":
